@@ -43,6 +43,8 @@ class Ctx:
         for (f, bb, line, kind) in ws:
             if crate and f.crate != crate:
                 continue
+            if NEUTRAL.search(f.id):
+                continue   # derived (de)serialisation / clone / default: builds a fresh value, mutates no actor state
             if kind == 'construct':
                 if constructors is not None:
                     got.setdefault(('construct', f.id), []).append('%s:%s' % (f.file, line))
@@ -151,6 +153,33 @@ class Ctx:
                        'guard_block': used.bb if used else None})
         return ok
 
+    def guard_any(self, rule, key, f, targets, matchers, what, success_only=True, assume=()):
+        """disjunctive guard: the effect is reachable only if at least one of the conditions takes its pass arm
+        (deleting the pass arm of one candidate per matcher simultaneously cuts every path)."""
+        blocked = f.errblocks if success_only else ()
+        base = f.reach([0], blocked=blocked)
+        live = [t for t in targets if t in base]
+        if not live:
+            self.rep.ob(rule, key, False, 'effect site(s) for "%s" not found / not reachable in %s (fail closed)' % (what, f.id), self.loc(f))
+            return False
+        removed = []
+        for am in assume:
+            for (c, arm) in self.find_conds(f, am):
+                if arm in c.arms:
+                    removed.append((c.bb, c.arms[arm]))
+        nc = []
+        for m in matchers:
+            cs = self.find_conds(f, m)
+            nc.append(len(cs))
+            for (c, arm) in cs:
+                if arm in c.arms:
+                    removed.append((c.bb, c.arms[arm]))
+        r = f.reach([0], removed=removed, blocked=blocked)
+        ok = all(n > 0 for n in nc) and not (set(live) & r)
+        self.rep.need(rule, key, ok, 'disjunctive guard "%s" must dominate %d effect site(s) in %s; candidates per disjunct: %s' % (what, len(live), f.id, nc),
+                      self.loc(f, live[0]), {'rule': rule, 'guard': what, 'fn': f.id, 'effect_blocks': live[:6], 'candidates': nc})
+        return ok
+
     def call_guard(self, rule, key, f, targets, pred_call, what, min_targets=1):
         """K6a: a call satisfying pred_call, with its error propagated (`?` / returned), dominates every target block"""
         base = f.reach([0], blocked=f.errblocks)
@@ -199,6 +228,49 @@ class Ctx:
                       self.loc(f, (bad or b_blocks)[0]), {'rule': rule, 'fn': f.id, 'A_blocks': a_blocks[:6], 'B_blocks': b_blocks[:6], 'what': what})
         return not bad
 
+    def stmt_rvalue_atoms(self, f, adt, field, narrow=True):
+        """[(bb, atoms)] for every direct assignment to (adt, field) in f: atoms of the assigned value"""
+        out = []
+        sl = self.N if narrow else self.S
+        for bi, b in enumerate(f.blocks):
+            if b.get('cleanup'):
+                continue
+            for st in b['s']:
+                if st[0] == '=' and st[1][1]:
+                    last = [p for p in st[1][1] if isinstance(p, list) and p[0] == 'f']
+                    if last and last[-1][3] == field and (last[-1][2] == adt or last[-1][2].endswith('::' + adt)):
+                        out.append((bi, sl.rvalue(f, st[2])))
+        return out
+
+    def agg_field_atoms(self, f, adt, field, narrow=True):
+        """[(bb, atoms)] for every aggregate construction of `adt` in f: atoms of the operand initialising `field`"""
+        out = []
+        sl = self.N if narrow else self.S
+        for bi, b in enumerate(f.blocks):
+            if b.get('cleanup'):
+                continue
+            for st in b['s']:
+                if st[0] == '=' and st[2][0] == 'agg' and st[2][1].get('k') == 'adt' and (st[2][1]['adt'] == adt or st[2][1]['adt'].endswith('::' + adt)):
+                    fields = st[2][1].get('fields', [])
+                    if field in fields:
+                        out.append((bi, sl.operand(f, st[2][2][fields.index(field)])))
+        return out
+
+    def value_from(self, rule, key, f, atoms_list, pats, what, forbid=()):
+        if not atoms_list:
+            self.rep.ob(rule, key, False, 'no site found for "%s" in %s (fail closed)' % (what, f.id), self.loc(f))
+            return False
+        ok = True
+        for (bb, atoms) in atoms_list:
+            good = has_all(atoms, pats) and not any(has_atom(atoms, p) for p in forbid)
+            ok = ok and good
+            if not good:
+                self.rep.ob(rule, key, False, '%s: value must derive from %s%s; derives from %s' % (what, pats, (' and not from %s' % list(forbid)) if forbid else '', sendsmod.pretty(atoms)), self.loc(f, bb))
+        if ok:
+            self.rep.ob(rule, key, True, '%s derives from %s' % (what, pats), self.loc(f, atoms_list[0][0]),
+                        {'rule': rule, 'fn': f.id, 'what': what, 'required_atoms': pats, 'atoms': sendsmod.pretty(atoms_list[0][1])})
+        return ok
+
     # ------------------------------------------------------------------ K10 argument atoms
     def arg_has(self, rule, key, call, idx, pats, what, narrow=True, forbid=()):
         sl = self.N if narrow else self.S
@@ -217,6 +289,9 @@ class Ctx:
         return ok
 
 
+NEUTRAL = re.compile(r" as (serde_core|serde)::(de|ser)::|__Visitor|as core::clone::Clone>::clone|as core::default::Default>::default|::testing::|::test_utils::")
+
+
 def _match_fn(fid, pat):
     """pat matches fid if fid == pat, or fid ends with '::'+pat, or fid is a closure inside such a function"""
     base = fid
@@ -231,12 +306,30 @@ def _match_fn(fid, pat):
 
 # ---------------------------------------------------------------------- matchers
 
-def m_rel(rel, a_pats, b_pats, holds):
+def m_rel(rel, a_pats, b_pats, holds, a_forbid=(), b_forbid=(), pure=False):
     """condition `A rel B`; the guarded effect requires the relation to be `holds` (True: proceed only if A rel B;
-    False: `A rel B => Err`)."""
+    False: `A rel B => Err`). a_forbid/b_forbid: atoms that must NOT occur on that side; pure: neither side may
+    involve arithmetic (OP atoms) beyond what a_pats/b_pats name - pins the shape `x rel y` against `x+1 rel y`."""
     def m(c):
         t = match_rel(c, rel, a_pats, b_pats)
         if t is None:
+            return None
+        # which cond side plays A? re-derive by checking pats
+        sides = [(c.A, c.B, getattr(c, 'opsA', set()), getattr(c, 'opsB', set())), (c.B, c.A, getattr(c, 'opsB', set()), getattr(c, 'opsA', set()))]
+        okside = False
+        for (sa, sb, oa, ob) in sides:
+            if has_all(sa, a_pats) and has_all(sb, b_pats):
+                bad = any(has_atom(sa, p) for p in a_forbid) or any(has_atom(sb, p) for p in b_forbid)
+                if pure:
+                    # the expression tree of each operand may use only the operators / literals the pattern names
+                    alla = {p.split(':')[1] for p in a_pats if p.startswith('OP:') or p.startswith('V:')}
+                    allb = {p.split(':')[1] for p in b_pats if p.startswith('OP:') or p.startswith('V:')}
+                    opa = {str(a[1]) for a in oa} - alla
+                    opb = {str(a[1]) for a in ob} - allb
+                    bad = bad or bool(opa) or bool(opb)
+                if not bad:
+                    okside = True
+        if not okside:
             return None
         return t if holds else (not t)
     return m
